@@ -1280,6 +1280,12 @@ impl Ms {
         if prop == "C03" {
             for (i, o) in post.iter().enumerate() {
                 let m = &w.props[i];
+                // the rule a proposal is judged by is the one the multisig was configured with
+                h.out.oracle_checks += 1;
+                if o.rule != w.rule {
+                    h.violate(&format!("C03/{kind:?}/rule/reported-rule-is-not-the-configured-one"), format!("proposal {} reports rule {:?}, the multisig was instantiated with {:?}", m.id, o.rule, w.rule));
+                    return false;
+                }
                 let expired = w.expired(&o.expires);
                 let Some((must_pass, may_reject)) = implied(o, expired) else {
                     h.out.count("proposals_not_judged_ballots_outweigh_total");
